@@ -92,6 +92,14 @@ class Raw:
         self.a = a * 2
         self.b = b
 
+def set_kind():
+    @dataclass
+    class CatLike:
+        m: int = 0
+        kind: Literal["kitty"] = field(default="kitty", metadata=alias("type"))
+    from apischema.objects import object_fields
+    set_object_fields(Cat, list(object_fields(CatLike).values()))
+
 def lower_name(tp):
     from apischema.type_names import TypeName
     return TypeName(tp.__name__.lower(), tp.__name__.lower()) if isinstance(tp, type) and hasattr(tp, "__name__") else None
@@ -158,6 +166,7 @@ def ops(ns):
     o["validator(P)"] = lambda: ns["validator"](ns["p_check"])
     o["dependent_required(P)"] = lambda: ns["dependent_required"]({"name": ["x_val"]}, owner=ns["P"])
     o["discriminator(type)(Animal)"] = lambda: ns["discriminator"]("type")(ns["Animal"])
+    o["set_object_fields(Cat,kind)"] = lambda: ns["set_kind"]()
     o["serialized(P)"] = lambda: ns["serialized"](owner=ns["P"])(ns["p_double"])
     return o
 
@@ -247,7 +256,7 @@ OBS = ["deserialize(Q)", "serialize(Q)", "deserialization_schema(Q)", "serializa
 
 def jobs(prop, tier, seed):
     out = []
-    n_ops = 35
+    n_ops = 36
     for first in range(n_ops):
         for obs in OBS:
             if tier == "quick":
@@ -257,6 +266,9 @@ def jobs(prop, tier, seed):
             else:
                 length = 2
             out.append(dict(harness="C09", pid=f"op{first}", first=first, obs=obs, length=length, opts={}, bounds={}, budget_s=(150 if length == 2 and obs == "deserialize(Q)" else 30) if tier == "quick" else 300))
+            # the same history after cache.set_size(): the caches are rebuilt, and the code that
+            # imported a cached function by name keeps the replaced one
+            out.append(dict(harness="C09", pid=f"op{first}", first=first, obs=obs, length=1 if tier == "quick" else 2, opts={"resized": True}, bounds={}, budget_s=30 if tier == "quick" else 300))
     return out
 
 
@@ -337,7 +349,7 @@ class Inst:
         if self.obs == "serialize(R)":
             return ns["R"](ns["Op"](ctx.int("o")), ctx.int("k"))
         if self.obs == "deserialize(Pet)":
-            d = {"type": ctx.pick(["Cat", "cat", "Dog", "dog"], "t")}
+            d = {"type": ctx.pick(["Cat", "cat", "Dog", "dog", "kitty"], "t")}
             if ctx.flag("m"):
                 d["m"] = ctx.int("m")
             return d
@@ -376,6 +388,8 @@ class Inst:
                 return fn()
 
         quiet(self.world.restore)
+        if self.job.get("opts", {}).get("resized"):
+            quiet(self.ops["cache.set_size(64)"])
         for name, obs_before in history:
             if intermediate and obs_before:
                 self.observe(data)
